@@ -592,6 +592,9 @@ func (a *acc) routeMethod(s *spec, nv namedVal, source string, readOK bool) {
 		a.out(route, kind+"@"+stage, s)
 		if kind != "rejected" {
 			a.fail(in, s, kind, stage, panicClass(text), fmt.Sprintf("`%s` with Echo(v %s) %s, value %s, panicked", src, s.t, s.t, showV(nv.v)), text, "the call performed, or an error")
+		} else if source == "fld" && rec.calls == 0 {
+			// the value was represented when it was read from a Go field of this very type: it has to convert back
+			a.fail(in, s, "rejected", "method-arg", "value-read-from-go-not-accepted-back", fmt.Sprintf("`%s`: the value read from a field of type %s is refused by a method whose parameter has that type (%s)", src, s.t, showV(nv.v)), ev.Clip(text, 200), "the call performed")
 		}
 		return
 	}
@@ -640,6 +643,17 @@ var misfits = []misfit{
 	{"time", func() object.Object { return object.NewTime(time.Unix(1700000000, 0).UTC()) }},
 }
 
+var numericMisfit = map[string]bool{"300": true, "-1": true, "maxint64": true, "1.5": true, "1e300": true, "byte(9)": true}
+
+func isNumericKind(k reflect.Kind) bool {
+	switch k {
+	case reflect.Int, reflect.Int8, reflect.Int16, reflect.Int32, reflect.Int64, reflect.Uint, reflect.Uint8, reflect.Uint16,
+		reflect.Uint32, reflect.Uint64, reflect.Float32, reflect.Float64:
+		return true
+	}
+	return false
+}
+
 func misfitByName(n string) *misfit {
 	for i := range misfits {
 		if misfits[i].name == n {
@@ -657,9 +671,15 @@ func (a *acc) routeMisfit(s *spec, m *misfit, which string) {
 	var g map[string]any
 	var rec *recorder
 	src := ""
+	// a number written to a numeric field, or passed to Echo, comes back as the number it was - or the write
+	// is refused; what does not fit (300 into an int8, 1.5 into an int, 1e300 into a float32) must not be cut to size
+	numeric := numericMisfit[m.name] && isNumericKind(s.t.Kind())
 	if which == "write" {
 		g = map[string]any{"s": holderOf(s, reflect.Zero(s.t)).Interface(), "p": m.mk()}
 		src = "s.F = p"
+		if numeric {
+			src = "s.F = p\ns.F == p"
+		}
 	} else {
 		mk, ok := holders[s.t]
 		if !ok {
@@ -669,6 +689,9 @@ func (a *acc) routeMisfit(s *spec, m *misfit, which string) {
 		h, rec = mk()
 		g = map[string]any{"h": h, "p": m.mk()}
 		src = "h.Echo(p)"
+		if numeric {
+			src = "h.Echo(p) == p"
+		}
 	}
 	a.Evals++
 	o := eval(src, g)
@@ -680,6 +703,13 @@ func (a *acc) routeMisfit(s *spec, m *misfit, which string) {
 	a.Outcomes[route+"|"+kind+"|"+s.ctorChain()+"|"+s.leafOf().class+"|"+m.name] = struct{}{}
 	if a.verbose {
 		fmt.Printf("  %-14s %s %s\n", route, kind, text)
+	}
+	if kind == "accepted" && numeric && o.obj == object.False {
+		stage := "field-write"
+		if which == "method" {
+			stage = "method-arg"
+		}
+		a.fail(in, s, "changed", stage, "number-cut-to-size", fmt.Sprintf("`%s` with p = %s and a target of type %s: the number was accepted and came back as another number", src, m.name, s.t), "false", "true, or an error")
 	}
 	if kind == "panic" || kind == "vmpanic" {
 		// same stages as the fitted routes: the signature names the defect (site + cause), not the family that found it
@@ -965,7 +995,7 @@ func Check(r *ev.Run, replay string) {
 	r.Set("misfit_cases", len(us)-nVals)
 	r.Set("method_holder_types", len(holders))
 	r.Set("workers", n)
-	r.Set("rule", fmt.Sprintf("every Go type built from %d leaf types (14 basic kinds, 14 named twins, time.Time, time.Duration, []byte, error, any, 4 named composites, map[NString]int) under <= %d constructors from {pointer, slice, array[2], map[string]T, struct{F T}, interface holding T} = %d types; every value from {zero, nil where legal, min, max, ordinary, empty} propagated through each constructor = %d (type, value) cases; each through the routes global (+typed back), field-read, field-write x {value from a Go field, script-built object}, method Echo(T) T x {same two sources} for the %d statically instantiated holder types; array refill (a full list, then a shorter list into a fresh holder of the same array type; nested arrays with a short second row: rejected or exactly [w, zero]); struct refill (a map with an ill-typed field, its keys visited in each of the 6 orders - the check is built with the map seam -, then a one-field map into the same struct type, also as slice elements: rejected or exactly that field); plus every type with <= %d constructors (%d) x %d possibly ill-fitting script objects written to a field / passed to a method (no-panic only); proxy histories: every sequence of <= 4 (thorough 5) steps over 22 operations on one Go object reached through a proxy (reads and writes of a pointer-to-struct field, a struct field, a string and a slice field, a Go method that replaces the pointer, a write through a second proxy of the same object, a nested object held and used later) against a plain Go model of the same steps - the script sees what Go holds, Go holds what the script wrote. distinct = distinct (route, outcome class, constructor chain, leaf class) tuples",
+	r.Set("rule", fmt.Sprintf("every Go type built from %d leaf types (14 basic kinds, 14 named twins, time.Time, time.Duration, []byte, error, any, 4 named composites, map[NString]int) under <= %d constructors from {pointer, slice, array[2], map[string]T, struct{F T}, interface holding T} = %d types; every value from {zero, nil where legal, min, max, ordinary, empty} propagated through each constructor = %d (type, value) cases; each through the routes global (+typed back), field-read, field-write x {value from a Go field, script-built object}, method Echo(T) T x {same two sources} for the %d statically instantiated holder types; array refill (a full list, then a shorter list into a fresh holder of the same array type; nested arrays with a short second row: rejected or exactly [w, zero]); struct refill (a map with an ill-typed field, its keys visited in each of the 6 orders - the check is built with the map seam -, then a one-field map into the same struct type, also as slice elements: rejected or exactly that field); plus every type with <= %d constructors (%d) x %d possibly ill-fitting script objects written to a field / passed to a method (no-panic only); proxy histories: every sequence of <= 4 (thorough 5) steps over 26 operations on one Go object reached through a proxy (reads and writes of a pointer-to-struct field, a struct field, a string and a slice field, a Go method that replaces the pointer, a write through a second proxy of the same object, a nested object held and used later) against a plain Go model of the same steps - the script sees what Go holds, Go holds what the script wrote. distinct = distinct (route, outcome class, constructor chain, leaf class) tuples",
 		len(leaves()), vd, nSpecs, nVals, len(holders), md, nMis, len(misfits)))
 	r.Assumptions = []string{
 		"composite values are one wrapping per element value (slice/array [v, zero], map {k: v}, struct {F: v}, &v, boxed v) plus nil/empty; not all combinations of element values",
